@@ -513,7 +513,7 @@ func (rule *RuleAction) checkDockerAction(uri string, exec *ExecAction) {
 	if _, err := url.Parse(uri); err != nil {
 		rule.Errorf(
 			exec.Uses.Pos,
-			"URI for Docker container %q is invalid: %s (tag=%s)",
+			"URI for Docker container %q is invalid: %s (tag=%q)",
 			uri,
 			err.Error(),
 			tag,
